@@ -42,7 +42,7 @@ BOUNDS = (
     "every TSIG position other than last in ANSWER/AUTHORITY/ADDITIONAL for 0..3 additional records. "
     "Seeded parts: message bodies (library-rendered with compression, EDNS, padding; and independently "
     "encoded), key names with case mix and odd octets, secrets of 1..200 octets, other-data, original ids; "
-    "quick 80 / thorough 400 seeds per algorithm for direct sign, 12 / 40 for the message flows. "
+    "quick 80 / thorough 1500 seeds per algorithm for direct sign, 12 / 120 for the message flows. "
     "GSS-TSIG is out of scope (no gssapi). HMAC itself is trusted (A-crypto). The TTL field of the "
     "TSIG RR is treated as not authenticated (the library digests the constant 0 and ignores the "
     "received TTL, as the DESIGN oracle does); the message ID is not authenticated (original id is)."
@@ -351,6 +351,22 @@ def _exc(e):
     return type(e).__name__ if e is not None else None
 
 
+class LibRaised(Exception):
+    """The library raised on an input that is valid by construction (a verdict, not a harness error)."""
+
+    def __init__(self, site, exc):
+        super().__init__(f"{site} raises {type(exc).__name__}: {exc}")
+        self.site = site
+        self.exc = exc
+
+
+def _lib(site, fn, *a, **k):
+    try:
+        return fn(*a, **k)
+    except Exception as e:
+        raise LibRaised(site, e)
+
+
 # --------------------------------------------------------------------------- checks
 # Every check takes one JSON-able case dict and returns a list of
 # (clause, what, sig) failures; run() counts and reports, replay() re-runs it.
@@ -366,7 +382,7 @@ def chk_sign_direct(c):
     )
     body = c["body"]
     rmac = c["request_mac"]
-    tsig, ctx = dns.tsig.sign(body, k, tmpl, c["time"], rmac)
+    tsig, ctx = _lib("dns.tsig.sign", dns.tsig.sign, body, k, tmpl, c["time"], rmac)
     want = ref_mac(key["alg"], key["secret"],
                    digest_first(rmac, c["orig_id"], body, key["name"], key["alg"], c["time"], c["fudge"],
                                 c["error"], c["other"]))
@@ -427,8 +443,8 @@ def chk_message_flow(c):
         request_mac = c.get("request_mac", b"")
         with fake_clock(now):
             k = lib_key(key)
-            r.add_tsig(k.name, k, c["fudge"], c["orig_id"] if c["orig_id"] is not None else mid, 0,
-                       c["other"], request_mac, k.algorithm)
+            _lib("Renderer.add_tsig", r.add_tsig, k.name, k, c["fudge"], c["orig_id"] if c["orig_id"] is not None else mid, 0,
+                 c["other"], request_mac, k.algorithm)
         wire = r.get_wire()
         expect_id = c["orig_id"] if c["orig_id"] is not None else mid
     else:
@@ -441,14 +457,14 @@ def chk_message_flow(c):
                        None if c["form"] in ("key", "callable") else lib_name(key["name"]),
                        algorithm=lib_name(key["alg"]))
             with fake_clock(now):
-                qw = q.to_wire()
+                qw = _lib("Message.to_wire", q.to_wire)
             o, qm, e = verify(qw, kr, now)
             if o != "verified":
                 out.append(("C14.genuine_validates", f"signed query does not validate under its own key: {_exc(e) or o}",
                             {"site": "Message.to_wire->from_wire", "what": "query", "exc": _exc(e)}))
                 return out
             request_mac = qm.mac
-            m = dns.message.make_response(qm, fudge=c["fudge"])
+            m = _lib("dns.message.make_response", dns.message.make_response, qm, fudge=c["fudge"])
             for rrset in _build_message(c).answer:
                 m.answer.append(rrset)
         else:
@@ -462,7 +478,7 @@ def chk_message_flow(c):
                 m.use_tsig(kr, lib_name(key["name"]), fudge=c["fudge"], other_data=c["other"],
                            algorithm=lib_name(key["alg"]), **kw)
         with fake_clock(now):
-            wire = m.to_wire()
+            wire = _lib("Message.to_wire", m.to_wire)
         expect_id = m.id if (c["via"] == "response" or c["orig_id"] is None) else c["orig_id"]
     # ---- independent look at what was rendered
     try:
@@ -583,16 +599,18 @@ def _multi_sign_lib(c):
                         r.add_rrset(sec, rrset)
                 r.write_header()
                 with fake_clock(c["times"][i]):
-                    ctx = r.add_multi_tsig(ctx, k.name, k, c["fudge"], mid, 0, b"",
-                                           c["request_mac"] if i == 0 else b"", k.algorithm)
+                    ctx = _lib("Renderer.add_multi_tsig", r.add_multi_tsig, ctx, k.name, k, c["fudge"], mid, 0, b"",
+                               c["request_mac"] if i == 0 else b"", k.algorithm)
                 w = r.get_wire()
             else:
                 m.use_tsig(k, fudge=c["fudge"])
                 if i == 0:
                     m.request_mac = c["request_mac"]
                 with fake_clock(c["times"][i]):
-                    w = m.to_wire(multi=True, tsig_ctx=ctx)
+                    w = _lib("Message.to_wire(multi)", m.to_wire, multi=True, tsig_ctx=ctx)
                 ctx = m.tsig_ctx
+            if ctx is None:
+                raise LibRaised("multi sign", RuntimeError("no running TSIG context after signing an envelope with multi=True"))
         else:
             w = m.to_wire(multi=True, tsig_ctx=ctx)
             # an unsigned envelope is digested whole into the running context (RFC 8945 5.3.1)
@@ -720,7 +738,10 @@ CHECKS = {
 
 def replay(data):
     kind = data["kind"]
-    fails = CHECKS[kind](data["case"])
+    try:
+        fails = CHECKS[kind](data["case"])
+    except LibRaised as e:
+        return True, str(e)
     if fails:
         return True, "; ".join(f"{cl}: {what}" for cl, what, _ in fails)
     return False, f"{kind} case passes"
@@ -822,6 +843,11 @@ def _do(R, kind, case, clause_for_count, key, nontrivial=True, sample=None):
     """Runs a check; harness errors are notes."""
     try:
         fails = CHECKS[kind](case)
+    except LibRaised as e:
+        R.case(clause_for_count, key=key, nontrivial=nontrivial)
+        R.violation(clause_for_count, str(e)[:200], {"site": e.site, "what": "raises on valid input", "exc": _exc(e.exc)},
+                    {"kind": kind, "case": case})
+        return None
     except Exception as e:  # harness trouble, not a verdict
         import traceback
 
@@ -844,7 +870,7 @@ def run(R):
     quick = R.quick
 
     # ---------------------------------------------------------------- 1. dns.tsig.sign direct
-    per_alg = 80 if quick else 400
+    per_alg = 80 if quick else 1500
     for alg in ALG_LIST:
         if R.deadline():
             break
@@ -866,7 +892,7 @@ def run(R):
 
     # ---------------------------------------------------------------- 2. message flows
     forms = ("key", "dict_key", "dict_bytes", "callable")
-    per_alg = 12 if quick else 40
+    per_alg = 12 if quick else 120
     for alg in ALG_LIST:
         if R.deadline():
             break
@@ -910,7 +936,7 @@ def run(R):
                         sample={"alg": _algname(alg), "fudge": fudge, "offset": d})
 
     # ---------------------------------------------------------------- 4. wrong key / name / algorithm / request MAC / error / truncation
-    reps = 2 if quick else 12
+    reps = 2 if quick else 30
     for alg in ALG_LIST:
         if R.deadline():
             break
@@ -1070,7 +1096,7 @@ def run(R):
 
     # ---------------------------------------------------------------- 7. multi-message sequences
     maxn = 5 if quick else 7
-    seeds = 1 if quick else 3
+    seeds = 1 if quick else 4
     for ai, alg in enumerate(ALG_LIST):
         if R.deadline():
             break
@@ -1123,7 +1149,7 @@ def run(R):
             kinds += ["req_lib_pad", "req_lib_compress", "resp_own_other", "req_own", "resp_lib"]
         for kd in kinds:
             plans.append((alg, kd))
-    for alg, kd in plans:
+    for pi, (alg, kd) in enumerate(plans):
         if R.deadline():
             break
         key = gen_key(rng, alg)
@@ -1158,7 +1184,7 @@ def run(R):
         form = ("key", "dict_key", "dict_bytes", "callable")[len(wire) % 4]
         base = {"key": key, "wire": wire, "form": form, "now": t + 7, "request_mac": rmac, "tsig_start": tsig_start}
         o, _, e = verify(wire, lib_keyring(key, form), t + 7, rmac)
-        R.case("C14.genuine_validates", key=("bitflip-base", _algname(alg), kd))
+        R.case("C14.genuine_validates", key=("bitflip-base", pi, _algname(alg), kd))
         if o != "verified":
             R.violation("C14.genuine_validates", f"unaltered signed message ({kd}) not accepted: {_exc(e) or o}",
                         {"site": "dns.message.from_wire", "what": "genuine rejected", "variant": kd, "exc": _exc(e)},
@@ -1172,7 +1198,7 @@ def run(R):
             except Exception as e:
                 R.note(f"harness error in bitflip: {type(e).__name__}: {e}")
                 break
-            R.case("C14.reject_bitflip", key=(_algname(alg), kd, bit), nontrivial=not equivalent)
+            R.case("C14.reject_bitflip", key=(pi, _algname(alg), kd, bit), nontrivial=not equivalent)
             if bit == 100:
                 R.sample("C14.reject_bitflip", {"alg": _algname(alg), "message": kd, "octets": len(wire), "bit": bit})
             for clause, what, sig in fails:
